@@ -218,7 +218,7 @@ var NamedTags = []uint16{
 	0x0005, 0x0006, 0x0007, 0x0008, 0x000D, 0x000E, 0x000F, 0x0010, 0x0011, 0x0017, 0x0019, 0x001D, 0x001E, 0x0030,
 	0x0201, 0x0202, 0x0203, 0x0204, 0x0205, 0x020A, 0x020B, 0x020C, 0x020D, 0x020E, 0x020F, 0x0210,
 	0x0302, 0x0303, 0x0304, 0x0381, 0x0420, 0x0421, 0x0422, 0x0423, 0x0424, 0x0425, 0x0426, 0x0427,
-	0x0501, 0x1201, 0x1203, 0x1204, 0x120A, 0x130C, 0x1380, 0x1381, 0x1383, 0x1400, 0x3FFF, 0x4000,
+	0x0501, 0x1201, 0x1203, 0x1204, 0x120A, 0x130C, 0x1380, 0x1381, 0x1383, 0x1400, 0x1401, 0x3FFF, 0x4000,
 	0x0001, 0x0002, 0x0003, 0x0004, 0x0009, 0x000A, 0x000B, 0x000C, 0x0012, 0x0013,
 	0x0000, 0x00FF, 0x0100, 0x7FFF, 0x8000, 0xFFFE, 0xFFFF,
 }
